@@ -3,7 +3,7 @@ Tseitin encoding from formulae in holpy to CNF.
 """
 
 from kernel.type import BoolType
-from kernel.term import Term, Var, And, Or, Not, Implies, Eq
+from kernel.term import Term, Var, And, Or, Not, Implies, Eq, true, false
 from kernel.thm import Thm
 from kernel import term_ord
 from kernel.proofterm import ProofTerm
@@ -13,7 +13,11 @@ from logic.conv import rewr_conv, every_conv, top_conv
 
 
 def is_logical(t):
-    return t.is_implies() or t.is_equals() or t.is_conj() or t.is_disj() or t.is_not()
+    """Whether t is built by a propositional connective. An equality counts
+    only between booleans; x = y at another type is an atom."""
+    if t.is_equals():
+        return t.arg.get_type() == BoolType
+    return t.is_implies() or t.is_conj() or t.is_disj() or t.is_not()
 
 def logic_subterms(t):
     """Returns the list of logical subterms for a term t."""
@@ -76,7 +80,9 @@ def encode(t):
     for eq_pt in eq_pts:
         encode_pt = encode_pt.on_prop(top_conv(rewr_conv(eq_pt, sym=True)))
     for eq_pt in eq_pts:
-        if is_logical(eq_pt.rhs):
+        # The constants true and false are not free atoms: their defining
+        # equations x <--> true, x <--> false become the unit clauses x, ~x.
+        if is_logical(eq_pt.rhs) or eq_pt.rhs in (true, false):
             encode_pt = logic.apply_theorem('conjI', eq_pt, encode_pt)
     
     # Rewrite using Tseitin rules
@@ -84,6 +90,8 @@ def encode(t):
 
     for th in encode_thms:
         encode_pt = encode_pt.on_prop(top_conv(rewr_conv(th)))
+    encode_pt = encode_pt.on_prop(top_conv(rewr_conv('eq_true', sym=True)),
+                                  top_conv(rewr_conv('eq_false', sym=True)))
     
     # Normalize the conjuncts
     return encode_pt.on_prop(logic.conj_norm())
